@@ -358,8 +358,13 @@ def _round8(rng, sc):
         if o['op'] in ('gfx.set_sprite', 'map.set_rect_tiles') and \
                 not a.get('rows_as') and not a.get('as_bytearray') and \
                 not isinstance(a.get('sprite'), dict) and rng.random() < 0.12:
-            # the rows are cut, one after the other, from one stream of values
-            a['rows_as'] = 'shared-stream'
+            # (withdrawn: rows cut one after the other from one shared
+            # stream of values.  A behaviour-preserving refactor that stops
+            # reading a row at the sheet's edge - refactors/C17-r2 - was
+            # flagged: that every clipped row is read to its end is not
+            # documented.  The draw stays so that all other scenarios are
+            # what they were.)
+            pass
         if o['op'] == RAW_OP and not a.get('own_section') and \
                 not a.get('as_bytearray') and not a.get('as_memoryview') and \
                 rng.random() < 0.12:
@@ -1262,4 +1267,4 @@ RULE = {
 }
 
 
-RULE_MORE = {'C17': " Added in the build rounds: calls positional or by keyword; rows as lists, bytearrays, tuples, one-shot iterators, generators, one reused buffer; runs of consecutive sprite ids; origins beyond the edge; copy operations feeding a getter result into a setter (overlapping); save/reload (.p8/.p8.png), copy.deepcopy and section replacement in the middle of a history; p8tool commands (also --debug) run in between; start states from from_bytes, from reference-encoded .p8 (sections omitted / reordered) and .p8.png, and as make_empty_game() delivers it; after every history: returned lists unchanged (or scribbled on by the harness without effect), setter arguments unchanged, a bystander game (fresh or cloned from this game's bytes), caller-owned buffers, the label and every deep-copied original unchanged. Round 6: the label compared after every step; whole-sheet sprites (128x128 opaque rows as bytearrays) and whole-sheet read-and-write-back; start states of data versions 0-41; a quarter of the runs with warnings promoted to errors (a documented clipping call that warns then raises). Round 7: rows as typed arrays and memoryviews of them (item sizes 1, 2, 4); start states loaded from .p8 files whose sections end early, as PICO-8 writes them; the bystander game loaded from the very same file. Round 8: rows cut one after the other from one shared stream of values (itertools.islice over one iterator); the history continued on copy.copy of the map section (put in the old one's place) or of the game; the game as an instance of a caller's subclass.", 'C18': " Added in the build rounds: lengths with a meaning of their own (0x8000, 0x10000), payloads that are one of the cart's own live region buffers, section replacement, deepcopy, save/reload and p8tool calls interleaved with the writes; bystander game, caller buffers and label compared at the end. Round 6: the label compared after every write (it is a sixth buffer of the sprite sheet's class, which no cart address reaches); payloads that are memoryviews of a part of one of the cart's own live buffers, written where they overlap their source across a region boundary; memoryview payloads of unrelated buffers. Round 7: start addresses that need more than 16 bits (all must be rejected); start states from .p8 files whose sections end early; bystander loaded from the same file. Round 8: payloads that are a slice of a memoryview of a larger immutable bytes object; the map section object taken over from another live game before the writes (that game, apart from the shared map, must stay as it is); the game as an instance of a caller's subclass whose write_cart_data takes bank-relative addresses and defers to the inherited method (a spanning write must apply the subclass's translation once)."}
+RULE_MORE = {'C17': " Added in the build rounds: calls positional or by keyword; rows as lists, bytearrays, tuples, one-shot iterators, generators, one reused buffer; runs of consecutive sprite ids; origins beyond the edge; copy operations feeding a getter result into a setter (overlapping); save/reload (.p8/.p8.png), copy.deepcopy and section replacement in the middle of a history; p8tool commands (also --debug) run in between; start states from from_bytes, from reference-encoded .p8 (sections omitted / reordered) and .p8.png, and as make_empty_game() delivers it; after every history: returned lists unchanged (or scribbled on by the harness without effect), setter arguments unchanged, a bystander game (fresh or cloned from this game's bytes), caller-owned buffers, the label and every deep-copied original unchanged. Round 6: the label compared after every step; whole-sheet sprites (128x128 opaque rows as bytearrays) and whole-sheet read-and-write-back; start states of data versions 0-41; a quarter of the runs with warnings promoted to errors (a documented clipping call that warns then raises). Round 7: rows as typed arrays and memoryviews of them (item sizes 1, 2, 4); start states loaded from .p8 files whose sections end early, as PICO-8 writes them; the bystander game loaded from the very same file. Round 8: the history continued on copy.copy of the map section (put in the old one's place) or of the game; the game as an instance of a caller's subclass.", 'C18': " Added in the build rounds: lengths with a meaning of their own (0x8000, 0x10000), payloads that are one of the cart's own live region buffers, section replacement, deepcopy, save/reload and p8tool calls interleaved with the writes; bystander game, caller buffers and label compared at the end. Round 6: the label compared after every write (it is a sixth buffer of the sprite sheet's class, which no cart address reaches); payloads that are memoryviews of a part of one of the cart's own live buffers, written where they overlap their source across a region boundary; memoryview payloads of unrelated buffers. Round 7: start addresses that need more than 16 bits (all must be rejected); start states from .p8 files whose sections end early; bystander loaded from the same file. Round 8: payloads that are a slice of a memoryview of a larger immutable bytes object; the map section object taken over from another live game before the writes (that game, apart from the shared map, must stay as it is); the game as an instance of a caller's subclass whose write_cart_data takes bank-relative addresses and defers to the inherited method (a spanning write must apply the subclass's translation once)."}
